@@ -63,8 +63,16 @@ def api_monitor(case, il, sl):
         groups.append((o, g))
     cons = {}
     pending = {}
+    fifo = {}
     for o, g in groups:
         t = o.split()
+        if t[0] == "cons-push" and g[0].startswith("ok"):
+            fifo.setdefault(t[1], []).append("cmsg delivery %s" % t[3] if t[2] == "delivery" else "cmsg ServerCancelled")
+        elif t[0] == "cons-recv":
+            q = fifo.setdefault(t[1], [])
+            want = q.pop(0) if q else "cmsg empty"
+            if g[0] != want and not (want == "cmsg empty" and g[0] == "cmsg disconnected"):
+                return ("a reader of consumer %s's queue got %r; the I/O thread had queued %r next (cancelling or dropping a consumer takes nothing out of its queue)" % (t[1], g[0], want), "c11-api-queue")
         if t[0] == "rep" and t[2] == "consume-ok":
             pending[t[4]] = (int(t[1]), t[3])
         elif t[0] == "call" and t[2] == "consume" and g[0].startswith("ret consumer") and t[-1] in pending:
@@ -114,9 +122,17 @@ def gen_api(tier, seed):
             elif r < 0.9 and g.consumers:
                 cl = rng.choice(sorted(g.consumers))
                 o = rng.choice(["cancel", "cancel", "drop", "drop-panic", "drop-panic"])
+                # messages still unread in the consumer's queue when it is cancelled / dropped: a reader
+                # holding another receiver of that queue still gets every one of them, in order
+                npush = rng.choice([0, 0, 1, 2, 3])
+                for _ in range(npush):
+                    g.nd += 1
+                    g.op("cons-push %s %s" % (cl, rng.choice(["delivery %d" % g.nd, "delivery %d" % g.nd, "server-cancelled"])))
                 if not g.consumers[cl][2]:
                     g.rep_frame(g.consumers[cl][0], apigen.amqp.basic_cancel_ok(g.consumers[cl][0], g.consumers[cl][1]), [apigen.X(g.consumers[cl][1])])
                 g.op("cons %s %s" % (cl, o))
+                for _ in range(npush + 1):
+                    g.op("cons-recv %s" % cl)
                 g.consumers[cl][2] = True
                 if o != "cancel":
                     del g.consumers[cl]
